@@ -128,9 +128,9 @@ def _same_container(template: Any, template_blocks: list[Any], blocks: list[Any]
                         is_leaf=lambda z: isinstance(z, lx.AbstractLinearOperator))
 
 
-def p_blocks(rng: Any) -> tuple[str, list[Any]]:
+def p_blocks(rng: Any, form: int | None = None) -> tuple[str, list[Any]]:
     n = int(rng.integers(1, 4))
-    form = int(rng.integers(4))
+    form = int(rng.integers(4)) if form is None else form % 4
     leafs = [_leaf(rng) for _ in range(n)]
     if form == 0:  # Row @ Diag
         common = _leaf(rng)
@@ -138,7 +138,7 @@ def p_blocks(rng: Any) -> tuple[str, list[Any]]:
         row_blocks = [gen.leaf_connector(rng, d.out_structure(), common)
                       if gen.is_sds(d.out_structure()) else None for d in diag_blocks]
         if any(b is None for b in row_blocks) or n < 2:
-            return p_blocks(rng)
+            return p_blocks(rng, form)
         c = _block_container(rng, row_blocks)
         return 'blocks/row@diag', [BlockRowOperator(c), BlockDiagonalOperator(_same_container(c, row_blocks, diag_blocks))]
     if form == 1:  # Diag @ Col
